@@ -690,6 +690,24 @@ class ExprMixin:
             dt, S = self.zs.rec_by_sort[base.sort().name()]
             if attr in S.fields:
                 return simp(dt.accessor(0, list(S.fields).index(attr))(base))
+        if z3.is_expr(base) and base.sort().name() in self.zs.union_by_sort:
+            # a field of a value of a union of record types: the arm(s) that have the field (AttributeError otherwise)
+            dt, S = self.zs.union_by_sort[base.sort().name()]
+            res, oks = None, []
+            for i_, (ctor, (pyt, arm)) in enumerate(S.arms.items()):
+                if isinstance(arm, api.Rec) and attr in arm.fields:
+                    rdt, _ = self.zs.recs[arm.name] if arm.name in self.zs.recs else (self.zs.zsort(arm), None)
+                    rdt = self.zs.recs[arm.name][0]
+                    val = rdt.accessor(0, list(arm.fields).index(attr))(dt.accessor(i_, 0)(base))
+                    isarm = dt.recognizer(i_)(base)
+                    oks.append(isarm)
+                    res = val if res is None else z3.If(isarm, val, res)
+            if res is not None:
+                if not self.cur_pure():
+                    ok = z3.Or(*oks)
+                    self.oblige('safety:attribute', ok, node, f'the value has an attribute {attr}')
+                    self.path.assume(ok)
+                return simp(res)
         if isinstance(base, (VBox, PyList, PyDict, VMatch)) or z3.is_expr(base):
             return BoundMethod(base, attr)
         if isinstance(base, VObj):
